@@ -377,6 +377,9 @@ def check(ctx):
     for comp in comps:
         ctx.rules.append("%s: %s" % (comp.name, comp.rule))
         fails = vlib.check_component(ctx, comp)
+        for k, v in EXH_COUNTS.items():
+            if "sweep" in k:
+                ctx.cov["distribution"][k] = v               # directed sweeps, as counted by the generator
         if ctx.enlarge() and not [f for f in fails if f["kind"] == "L1"]:
             fails += vlib.check_component(ctx, comp, budget_mult=10)     # broken proof: enlarge the search
         # standard flow + minimisation inside the argument vectors of the shortest property-level failures
